@@ -12,14 +12,14 @@ LEMMAS = {
     'C07': ['vspec::lemma_frame_enc_len', 'vspec::lemma_full_frame_ends_block', 'vspec::enc', 'vspec::lemma_enc_len_bound', 'frame::header::lemma_hdr_roundtrip',
             'vroundtrip::lemma_blocks_of', 'vroundtrip::lemma_read_written_frame', 'vroundtrip::lemma_read_written_record', 'vroundtrip::lemma_roundtrip_all'],
     'C08': ['frame::header::lemma_hdr_roundtrip'],
-    'C09': ['vdamage::lemma_damaged_frame', 'vdamage::lemma_skip_frames', 'vdamage::lemma_damaged_record', 'vdamage::lemma_one_damaged_entry', 'vdamage::lemma_replay_log_is_fold', 'vdamage::lemma_one_damaged_entry_replay', 'vdamage::lemma_read_all_intact'],
+    'C09': ['vdamage::lemma_damaged_frame', 'vdamage::lemma_skip_frames', 'vdamage::lemma_damaged_record', 'vdamage::lemma_one_damaged_entry', 'vdamage::lemma_replay_log_is_fold', 'vdamage::lemma_one_damaged_entry_replay', 'vdamage::lemma_read_all_intact', 'visol::lemma_replay_isolation', 'visol::lemma_lost_entry_other_queues'],
     'C10': ['vspec::lemma_frame_step_progress', 'vspec::rec_step', 'vspec::lemma_rec_step_progress', 'vfs::lemma_all_blocks_ok', 'vfs::lemma_block_at'],
     'C11': ['vspec::lemma_frame_step_progress', 'vspec::lemma_rec_step_progress', 'vfs::lemma_blocks_below_skip', 'vfs::lemma_blocks_below_step'],
     'C12': ['vspec::lemma_parse_ser_items', 'vspec::lemma_rec_step_progress', 'vtorn::lemma_zeros_end', 'vtorn::lemma_torn_frame', 'vtorn::lemma_torn_record', 'vtorn::lemma_torn_tail', 'vdamage::lemma_read_all_of_prefix', 'vdamage::lemma_torn_tail_replay'],
     'C15': ['vspec::lemma_enc_len_bound', 'vspec::lemma_ser_entry_len'],
     'C16': ['vsum::lemma_wsum_pick', 'vsum::lemma_wsum_insert', 'vsum::lemma_wsum_le', 'vsum::lemma_wsum_eq', 'vsum::lemma_wsum_add', 'vsum::lemma_used_bounds', 'vsum::lemma_used_all_empty',
             'vsum::lemma_payload_split', 'vsum::lemma_used_truncate', 'mem::queues::MemQueues::lemma_used_is_view', 'mem::queue::MemQueue::lemma_size_spec_view'],
-    'C18': ['visol::lemma_entry_frame', 'visol::lemma_entry_local', 'visol::lemma_replay_isolation', 'visol::lemma_open_isolation', 'vdamage::lemma_replay_log_is_fold'],
+    'C18': ['visol::lemma_entry_frame', 'visol::lemma_entry_local', 'visol::lemma_replay_isolation', 'visol::lemma_open_isolation', 'visol::lemma_proj_remove', 'visol::lemma_lost_entry_other_queues', 'vdamage::lemma_replay_log_is_fold'],
     'C04': ['vspec::lemma_replay_items_is_append_all', 'multi_record_log::lemma_covers', 'multi_record_log::lemma_wal_after_positions_push'],
 }
 
@@ -150,7 +150,7 @@ PROPS = {
         level='proof',
         explain='Every API postcondition of C05/C13/C15 is proved with no hypothesis on next_persist; persist / persist_on_policy leave view and WAL unchanged (O-C14-*). '
                 'A syntactic frame check confirms next_persist is only read inside persist_on_policy.',
-        kani_quick=[], kani_thorough=['E-hist'], trusted=[FS, 'BufWriter flush on drop'], not_decided=['clean-restart half delegated to C01'],
+        kani_quick=[], kani_thorough=['E-hist'], trusted=[FS, 'BufWriter flush on drop'], not_decided=['clean-restart half: follows from C01 (lemma_replay_history: the per-call obligations O-C01-commute-* / O-C12-one do not mention the policy, so the entries written and their replay are the same under every policy); not restated as a separate obligation'],
     ),
     'C15': dict(
         level='proof',
